@@ -54,6 +54,11 @@ add(Contract(
         ("store[]:sCount@0", "CONS-first-line", "state.bsCount[index] + value == PhysCol(state.src, pos)", ["C17", "C06"]),
         ("store[]:sCount@1", "CONS-continuation-line", "state.bsCount[index] + value == PhysCol(state.src, pos)", ["C17", "C06"]),
         ("store[]:bsCount@0", "bsCount-physical", "value == PhysCol(state.src, state.bMarks[index]) + (1 if (spaceAfterMarker and adjustTab) else 0)", ["C17"]),
+        # C06 (the mechanism of the quote form): a line that starts with this block's own marker at or beyond the block indent
+        # is a quote line - it is never offered to the terminator rules and never swallowed as a lazy continuation.  Only the
+        # indent *relative to blkIndent* may matter, or prefixing a document with a list marker would change its blocks.
+        ("call:rule", "marker-lines-never-reach-the-terminators", "not (state.src[pos - 1] == '>' and state.sCount[nextLine] >= state.blkIndent)", ["C06"]),
+        ("store[]:sCount@3", "marker-lines-never-continue-lazily", "not (state.src[pos - 1] == '>' and state.sCount[nextLine] >= state.blkIndent)", ["C06"]),
         ("store[]:bsCount@1", "bsCount-physical-continuation", "value == PhysCol(state.src, state.bMarks[index]) + (1 if (spaceAfterMarker and adjustTab) else 0)", ["C17"]),
     ],
     ensures=[
